@@ -19,7 +19,7 @@ THEOREMS = ["outside_the_engine_the_glue_only_waits", "delivery_needs_engine_dat
             "query_requests_write_only_for_handshake", "suppressed_write_poll_is_restored", "idle_client_requests_write",
             "pending_only_advances_the_handshake", "send_only_writes", "receive_only_reads", "unlimited_receive_never_nothing",
             "send_io_inside_engine", "receive_io_inside_engine", "driver_paths_io_inside_engine",
-            "receive_now_keeps_the_interest", "send_some_keeps_the_interest", "pending_keeps_the_interest", "known_interest_is_polled", "tls_send_complete"]
+            "receive_now_keeps_the_interest", "send_some_keeps_the_interest", "pending_keeps_the_interest", "known_interest_is_polled", "tls_send_complete", "read_steps_suffice_refuted"]
 
 CH, SF, CF, ST, OVH, CLOSE_NOTIFY = 120, 900, 60, 260, 22, 24
 E_SSL, E_WANT_READ, E_WANT_WRITE, E_SYSCALL, E_ZERO = 1, 2, 3, 5, 6
@@ -251,7 +251,11 @@ def kernel(c, kind, a, tr, rnd):
                     # segmentation in TIME as well: the FIRST zero-time-out look at a stream position may come before the next
                     # segment has arrived (decided per position; every later look finds it: arrival is monotone)
                     looked = 0
+                    pending_seen = False
                     for k2, a2 in reversed(tr):
+                        if 1 <= k2 <= 7 and not pending_seen:
+                            pending_seen = True          # the call that is being answered (filled in by the probe)
+                            continue
                         if k2 == 4 and a2[0] == f:
                             break
                         if k2 == 2 and f in a2[3::2]:
@@ -438,9 +442,37 @@ def stalled(c, tr):
     return None
 
 
+STEPS_KEY = "steps-exhausted:zero-timeout:SocketTlsImpl.Read/Write/DriverPending"
+
+
+def steps_exhausted_zero_timeout(tr):
+    """the operation in progress at the end of the trace made ten engine calls in a row that all ended in WANT_READ / WANT_WRITE,
+    and every wait on the socket during those ten rounds had time-out 0 (driver mode, a zero-time-out call, or a limited call whose
+    budget is used up): input that trickles in"""
+    if not tr:
+        return False
+    died = any((k == 98 and a and a[0] == 6) or (k == 99 and a[0] == 2 and a[1] in (41, 42, 46)) for k, a in tr[-3:])
+    if not died:
+        return False
+    eng = 0
+    for k, a in reversed(tr):
+        if k == 20:
+            break
+        if k == 2 and len(a) == 5 and a[0] != 0:      # a wait on the socket itself (the driver's own poll lists the pipe as well)
+            break
+        if k == 40:
+            if a[2] <= 0 and a[3] in (E_WANT_READ, E_WANT_WRITE):
+                eng += 1
+            else:
+                break
+    return eng >= 10
+
+
 def finding_key(c, ti, why):
     if ti and any(k == 20 and a[0] in (41, 42) and a[1] == 0 and a[2:4] == [4, 8] for k, a in ti):
         return PENDING_KEY
+    if steps_exhausted_zero_timeout(ti):
+        return STEPS_KEY
     return None
 
 
@@ -450,6 +482,9 @@ def monitor(c, tr):
     p = plan_of(c)
     if p is None:
         return None
+    if steps_exhausted_zero_timeout(tr):
+        return ("(F13) ten engine calls in a row ended in WANT_READ/WANT_WRITE although each zero-time-out wait in between succeeded (input trickling in between two "
+                "zero-time-out looks): handshakeStepsMax exhausted, assert(i < handshakeStepsMax) aborts")
     if finding_key(c, tr, "") == PENDING_KEY:
         return "(F8) application data that arrives together with the end of the handshake is read and dropped by DriverPending(), std::logic_error escapes from Step/Run"
     for k, a in tr:
